@@ -179,3 +179,52 @@ def harness(kernel, shape):
     if kernel == "align":
         return h_align(shape)
     return _base_harness(kernel, shape)
+
+
+# ---- K0: the contract of the modulation-buffer stub, on the real function ---
+
+_k_prev, _h_prev = kernels, harness
+
+
+def h_buffer_contract(shape):
+    """Channel.calc_modulation_buffer returns 0 <= start, end <= rise_time for
+    arbitrary input / modulated samples (the contract assumed by the stub)."""
+
+    def h(inp):
+        from pulser.channels import Rydberg
+        from pulser.channels.eom import RydbergBeam, RydbergEOM
+        import numpy as _np
+
+        bw = shape["bw"]
+        eom = shape.get("eom_bw")
+        kw = {}
+        if eom:
+            kw["eom_config"] = RydbergEOM(limiting_beam=RydbergBeam.RED, max_limiting_amp=100.0, intermediate_detuning=4000.0,
+                                          controlled_beams=(RydbergBeam.BLUE,), mod_bandwidth=eom)
+        ch = Rydberg.Global(None, None, mod_bandwidth=bw, **kw)
+        tr = ch.eom_config.rise_time if eom else ch.rise_time
+        n = shape["n"]
+        x = _np.empty(n, dtype=object)
+        for i in range(n):
+            x[i] = inp.real("in%d" % i, -10, 10)
+        y = _np.empty(n + 2 * tr, dtype=object)
+        for i in range(n + 2 * tr):
+            y[i] = inp.real("mod%d" % i, -10, 10)
+        start, end = ch.calc_modulation_buffer(x, y, eom=bool(eom))
+        return [("c03:buffer_contract", AND(start >= 0, start <= tr, end >= 0, end <= tr))]
+
+    return h
+
+
+def kernels(tier):
+    ks = _k_prev(tier)
+    for bw, n in ((480.0, 1), (480.0, 2), (240.0, 1), (240.0, 2), (160.0, 1)) + (() if tier == "quick" else ((160.0, 2), (120.0, 1))):
+        ks.append(("buffer_contract", dict(bw=bw, n=n)))
+    ks.append(("buffer_contract", dict(bw=100.0, eom_bw=240.0, n=1)))
+    return ks
+
+
+def harness(kernel, shape):
+    if kernel == "buffer_contract":
+        return h_buffer_contract(shape)
+    return _h_prev(kernel, shape)
